@@ -146,8 +146,11 @@ def signature(spec, case):
     v = case.get('violation') or {}
     op = v.get('op') or {}
     site = v.get('site') or {}
-    return {'kind': v.get('kind'), 'op': op.get('k'), 'field': op.get('field'), 'target': site.get('target'),
-            'parent': site.get('parent'), 'pfield': site.get('pfield'), 'code': site.get('code')}
+    sig = {'kind': v.get('kind'), 'op': op.get('k'), 'field': op.get('field'), 'target': site.get('target'),
+           'parent': site.get('parent'), 'pfield': site.get('pfield'), 'code': site.get('code')}
+    for p in v.get('predicates') or ():
+        sig['P:' + p] = True
+    return sig
 
 
 # ----------------------------------------------------------------------------------------------------------------------
